@@ -317,6 +317,17 @@ def _simple(st, stack, env, events):
         env[name] = val
         events.append(('set', name, '=', src(val), ln))
         return
+    if isinstance(st, ast.Assign) and len(st.targets) == 1 and isinstance(st.targets[0], ast.Tuple) \
+            and all(isinstance(e, ast.Name) for e in st.targets[0].elts) and isinstance(st.value, ast.Call):
+        # a, b = f(...): every name is rebound to a component of the call's result
+        val = inline(st.value, env)
+        for c in ast.walk(st.value):
+            if isinstance(c, ast.Call):
+                _call_event(c, env, events, ln)
+        for i, e in enumerate(st.targets[0].elts):
+            env.pop(e.id, None)
+            events.append(('set', e.id, '=', '%s[%d]' % (src(val), i), ln))
+        return
     if isinstance(st, ast.AugAssign) and isinstance(st.target, ast.Name):
         op = {ast.Add: '+=', ast.Sub: '-='}.get(type(st.op), '?=')
         for c in ast.walk(st.value):
